@@ -1737,8 +1737,11 @@ static void compile_expr(CG *cg, ASTNode *node) {
         break;
 
     case AST_STRING: {
-        uint32_t idx = nvm_add_string(cg->module, node->as.string_val,
-                                       (uint32_t)strlen(node->as.string_val));
+        /* the literal's escapes denote characters, as in the compiled program */
+        char *decoded = string_literal_value(node->as.string_val);
+        const char *str = decoded ? decoded : node->as.string_val;
+        uint32_t idx = nvm_add_string(cg->module, str, (uint32_t)strlen(str));
+        free(decoded);
         emit_op(cg, OP_PUSH_STR, idx);
         break;
     }
